@@ -6,7 +6,7 @@ package main
 //
 //	case <n> issue
 //	ca <kind> <signerLife|none> <chainLives> <root 0|1> <defaultTTL s> <maxTTL s>
-//	      kind: self | plug | plug2 | nosigner | expired | expiredchain   (how the harness builds it)
+//	      kind: self | plug | plug2 | noroot | capchain | nosigner | expired | expiredchain   (how the harness builds it)
 //	      the remaining tokens are the abstract bundle the Lean model reads
 //	na -                                     no CA_TRUSTED_NODE_ACCOUNTS
 //	na <trusted ns/sa list> <k> <id1> <pods1> ... <idk> <podsk>
@@ -17,10 +17,13 @@ package main
 //	      csr: form|key|cn|org|sans|ca|extra
 //	      ttl: int64 seconds; imp/signer: - | s:<string> | n (a non-string value)
 //	      cluster: - | list of "clusterid" metadata values; junk: number of unrelated metadata fields
+//	reqa <authspec> <csr> <ttl> <imp> <signer> <cluster> <junk>
+//	      the same request authenticated by one REAL authenticator in Server.Authenticators;
+//	      authspec = the tokens of an `authn` line (stream authn, see authn.go) after the word authn
 //
 // Output lines: `ok`, `ca-ok`/`ca-err`, `na-ok`, and for a request
 //
-//	err <Code> | crash | ok san=<..> cn=<..> ca=<b> bc=<b> key=<b> ku=<n> eku=<..> xext=<..> life=<secs|clamp> le=<b> chain=<n> mid=<b> root=<b>
+//	err <Code> | crash | ok san=<..> subj=<attrs> sig=<b> ca=<b> bc=<b> key=<b> ku=<n> eku=<..> xext=<..> life=<secs|clamp> le=<b> chain=<n> mid=<b> root=<b>
 
 import (
 	"bytes"
@@ -53,8 +56,11 @@ import (
 	"google.golang.org/protobuf/types/known/structpb"
 	v1 "k8s.io/api/core/v1"
 	metav1 "k8s.io/apimachinery/pkg/apis/meta/v1"
+	"k8s.io/apimachinery/pkg/fields"
 	"k8s.io/apimachinery/pkg/runtime"
 	"k8s.io/apimachinery/pkg/types"
+	kubefake "k8s.io/client-go/kubernetes/fake"
+	ktesting "k8s.io/client-go/testing"
 
 	pb "istio.io/api/security/v1alpha1"
 	"istio.io/istio/pilot/pkg/features"
@@ -296,7 +302,7 @@ func (f *caFixtures) signerCert(parent *x509.Certificate, parentKey crypto.Priva
 }
 
 // buildCA constructs the real IstioCA for one `ca` line.
-func (f *caFixtures) buildCA(kind string, life int64, def, max int64) (*ca.IstioCA, error) {
+func (f *caFixtures) buildCA(kind string, life, chainLife int64, def, max int64) (*ca.IstioCA, error) {
 	var bundle *util.KeyCertBundle
 	var err error
 	switch kind {
@@ -312,6 +318,21 @@ func (f *caFixtures) buildCA(kind string, life int64, def, max int64) (*ca.Istio
 		if c, k, err = f.signerCert(f.int1Cert, f.int1Key, life); err == nil {
 			chain := append(append([]byte(nil), c...), f.int1Pem...)
 			bundle, err = util.NewVerifiedKeyCertBundleFromPem(c, k, chain, f.rootPem, nil)
+		}
+	case "noroot":
+		// signer and chain but no root-cert PEM (unverified bundle)
+		var c, k []byte
+		if c, k, err = f.signerCert(f.rootCert, f.rootKey, life); err == nil {
+			bundle = util.NewKeyCertBundleFromPem(c, k, c, nil, nil)
+		}
+	case "capchain":
+		// the first chain certificate expires (in chainLife seconds) before the signer does: only
+		// minTTL's cap on the default TTL, not the signer clamp, bounds a defaulted lifetime
+		var c, k, c2 []byte
+		if c, k, err = f.signerCert(f.rootCert, f.rootKey, life); err == nil {
+			if c2, _, err = f.signerCert(f.rootCert, f.rootKey, chainLife); err == nil {
+				bundle = util.NewKeyCertBundleFromPem(c, k, append(append([]byte(nil), c2...), c...), f.rootPem, nil)
+			}
 		}
 	case "nosigner":
 		bundle = util.NewKeyCertBundleFromPem(nil, nil, nil, f.rootPem, nil)
@@ -354,16 +375,19 @@ func (h *caHolder) GetCAKeyCertBundle() *util.KeyCertBundle { return h.cur.GetCA
 
 // ---------------------------------------------------------------- fixtures: pod worlds
 
-type podSpec struct{ name, ns, uid, sa, node string }
+type podSpec struct {
+	name, ns, uid, sa, node string
+	failed                  bool // status.phase == Failed
+}
 
 func parsePods(tok string) []podSpec {
 	var out []podSpec
 	for _, p := range wire.DecList(tok) {
 		f := decFields(p)
-		for len(f) < 5 {
+		for len(f) < 6 {
 			f = append(f, "")
 		}
-		out = append(out, podSpec{f[0], f[1], f[2], f[3], f[4]})
+		out = append(out, podSpec{f[0], f[1], f[2], f[3], f[4], f[5] == "F"})
 	}
 	return out
 }
@@ -371,7 +395,11 @@ func parsePods(tok string) []podSpec {
 func encPods(ps []podSpec) string {
 	var l []string
 	for _, p := range ps {
-		l = append(l, encFields(p.name, p.ns, p.uid, p.sa, p.node))
+		ph := ""
+		if p.failed {
+			ph = "F"
+		}
+		l = append(l, encFields(p.name, p.ns, p.uid, p.sa, p.node, ph))
 	}
 	return wire.EncList(l)
 }
@@ -426,12 +454,18 @@ func (w *worlds) get(f []string) (*world, error) {
 	for _, id := range ids {
 		var objs []runtime.Object
 		for _, p := range pods[id] {
-			objs = append(objs, &v1.Pod{
+			po := &v1.Pod{
 				ObjectMeta: metav1.ObjectMeta{Name: p.name, Namespace: p.ns, UID: types.UID(p.uid)},
 				Spec:       v1.PodSpec{ServiceAccountName: p.sa, NodeName: p.node},
-			})
+				Status:     v1.PodStatus{Phase: v1.PodRunning},
+			}
+			if p.failed {
+				po.Status.Phase = v1.PodFailed
+			}
+			objs = append(objs, po)
 		}
 		client := kube.NewFakeClient(objs...)
+		honourPodFieldSelector(client, objs)
 		ctl.Add(cluster.ID(id), client, w.stop)
 		client.RunAndWait(w.stop)
 	}
@@ -446,6 +480,42 @@ func (w *worlds) get(f []string) (*world, error) {
 	x := &world{server: srv, trusted: trusted, ids: ids, pods: pods}
 	w.cache[key] = x
 	return x, nil
+}
+
+// honourPodFieldSelector makes the fake API server apply the `status.phase` field selector of a pod
+// LIST the way the real one does (the client-go fake ignores field selectors).  API-server semantics
+// modelled from its documentation.
+func honourPodFieldSelector(client kube.Client, objs []runtime.Object) {
+	cs, ok := client.Kube().(*kubefake.Clientset)
+	if !ok {
+		return
+	}
+	// inserted just before the default object-tracker reaction, i.e. after istio's own bookkeeping
+	// reactors (which count pending informer watches and must see every LIST)
+	react := func(action ktesting.Action) (bool, runtime.Object, error) {
+		la, ok := action.(ktesting.ListAction)
+		if !ok || la.GetListRestrictions().Fields == nil || la.GetListRestrictions().Fields.Empty() {
+			return false, nil, nil
+		}
+		sel := la.GetListRestrictions().Fields
+		out := &v1.PodList{}
+		for _, o := range objs {
+			p := o.(*v1.Pod)
+			if la.GetNamespace() != "" && la.GetNamespace() != p.Namespace {
+				continue
+			}
+			if sel.Matches(fields.Set{"status.phase": string(p.Status.Phase), "metadata.name": p.Name, "metadata.namespace": p.Namespace, "spec.nodeName": p.Spec.NodeName}) {
+				out.Items = append(out.Items, *p.DeepCopy())
+			}
+		}
+		return true, out, nil
+	}
+	cs.Lock()
+	defer cs.Unlock()
+	n := len(cs.ReactionChain)
+	chain := append([]ktesting.Reactor{}, cs.ReactionChain[:n-1]...)
+	chain = append(chain, &ktesting.SimpleReactor{Verb: "list", Resource: "pods", Reaction: react})
+	cs.ReactionChain = append(chain, cs.ReactionChain[n-1])
 }
 
 // ---------------------------------------------------------------- scripted authenticators
@@ -601,6 +671,11 @@ type leafView struct {
 	sans      []string // in certificate order: U:<uri> D:<dns> I:<hex bytes> O<tag>:<hex>
 	sanCount  int      // number of SAN extensions
 	cn        string
+	subject   []string // every attribute of the raw subject, in order: <oid>=<value>
+	parsed    *x509.Certificate
+	tbs       []byte // raw TBSCertificate, signature algorithm and signature (verified without crypto/x509's name checks)
+	sigAlg    string
+	sig       []byte
 	isCA      bool
 	bcPresent bool
 	spki      []byte
@@ -621,12 +696,18 @@ func parseLeaf(pemText string) (*leafView, error) {
 	if rest, err := asn1.Unmarshal(block.Bytes, &rc); err != nil || len(rest) != 0 {
 		return nil, fmt.Errorf("leaf is not a certificate: %v", err)
 	}
-	v := &leafView{spki: rc.TBS.PublicKey.FullBytes, notBefore: rc.TBS.Validity.NotBefore, notAfter: rc.TBS.Validity.NotAfter}
+	v := &leafView{spki: rc.TBS.PublicKey.FullBytes, notBefore: rc.TBS.Validity.NotBefore, notAfter: rc.TBS.Validity.NotAfter,
+		tbs: rc.TBS.Raw, sigAlg: rc.SigAlg.Algorithm.String(), sig: rc.Sig.RightAlign()}
 	var subj pkix.RDNSequence
 	if _, err := asn1.Unmarshal(rc.TBS.Subject.FullBytes, &subj); err == nil {
 		var n pkix.Name
 		n.FillFromRDNSequence(&subj)
 		v.cn = n.CommonName
+		for _, rdn := range subj {
+			for _, atv := range rdn {
+				v.subject = append(v.subject, atv.Type.String()+"="+fmt.Sprint(atv.Value))
+			}
+		}
 	}
 	for _, e := range rc.TBS.Extensions {
 		switch {
@@ -688,6 +769,7 @@ func parseLeaf(pemText string) (*leafView, error) {
 	sort.Strings(v.xext)
 	if c, err := x509.ParseCertificate(block.Bytes); err == nil {
 		v.x509OK = true
+		v.parsed = c
 		// cross-check the observer against crypto/x509 where it accepts the certificate
 		if c.IsCA != v.isCA || !c.NotAfter.Equal(v.notAfter) || !c.NotBefore.Equal(v.notBefore) ||
 			!bytes.Equal(c.RawSubjectPublicKeyInfo, v.spki) || c.Subject.CommonName != v.cn {
@@ -700,6 +782,7 @@ func parseLeaf(pemText string) (*leafView, error) {
 // ---------------------------------------------------------------- system under test
 
 type issueSUT struct {
+	authn  *authnSUT
 	keys   *keyring
 	fix    *caFixtures
 	holder *caHolder
@@ -716,7 +799,7 @@ func newIssueSUT() *issueSUT {
 	s.worlds = &worlds{holder: h, cache: map[string]*world{}, stop: make(chan struct{})}
 	// a placeholder CA so that a Server can be constructed before the first `ca` line (requests are
 	// answered `no-ca` until a `ca` line succeeds)
-	if c, err := s.fix.buildCA("nosigner", 0, 3600, 3600); err == nil {
+	if c, err := s.fix.buildCA("nosigner", 0, 0, 3600, 3600); err == nil {
 		h.cur = c
 	}
 	return s
@@ -739,20 +822,70 @@ type issueResult struct {
 	after  time.Time
 }
 
-func (s *issueSUT) run(r reqSpec) (res issueResult) {
-	defer func() {
-		if rec := recover(); rec != nil {
-			res.crash = true
-		}
-	}()
+func (s *issueSUT) run(r reqSpec) issueResult {
 	features.XDSAuth = r.xdsAuth
 	security.AuthPlaintext = r.plaintext
 	var auths []security.Authenticator
 	for _, o := range r.outs {
 		auths = append(auths, scripted{o})
 	}
-	s.cur.server.Authenticators = auths
 	ctx, req, spki := r.build(s.keys)
+	return s.runWith(ctx, auths, req, spki)
+}
+
+// reqaSpec is a request authenticated by one REAL authenticator placed in Server.Authenticators.
+type reqaSpec struct {
+	spec []string // authenticator spec: kind first, transport grpc
+	req  reqSpec  // csr, ttl, imp, signer, cluster, junk
+}
+
+func parseReqA(f []string) (reqaSpec, error) {
+	if len(f) != 8 {
+		return reqaSpec{}, errors.New("bad reqa line")
+	}
+	a := reqaSpec{spec: strings.Fields(wire.Dec(f[1]))}
+	a.req = reqSpec{xdsAuth: true, hasPeer: true, tls: true, csr: parseCSRSpec(wire.Dec(f[2])), imp: f[4], signer: f[5], cluster: f[6]}
+	ttl, err := strconv.ParseInt(f[3], 10, 64)
+	if err != nil {
+		return a, err
+	}
+	a.req.ttl = ttl
+	a.req.junk, _ = strconv.Atoi(f[7])
+	return a, nil
+}
+
+func (a reqaSpec) line() []string {
+	return []string{"reqa", wire.Enc(strings.Join(a.spec, " ")), a.req.csr.tok(), strconv.FormatInt(a.req.ttl, 10), a.req.imp, a.req.signer, a.req.cluster,
+		strconv.Itoa(a.req.junk)}
+}
+
+// runA sends the request through the real CreateCertificate with the real authenticator; the
+// request's own clusterid metadata is the one the authenticator sees too.
+func (s *issueSUT) runA(a reqaSpec) (issueResult, *prepared, error) {
+	if s.authn == nil {
+		s.authn = newAuthnSUT()
+	}
+	p, err := s.authn.prepare(a.spec)
+	if err != nil {
+		return issueResult{}, nil, err
+	}
+	delete(p.md, "clusterid")
+	if a.req.cluster != "-" {
+		p.md["clusterid"] = wire.DecList(a.req.cluster)
+	}
+	features.XDSAuth = true
+	security.AuthPlaintext = false
+	_, req, spki := a.req.build(s.keys)
+	return s.runWith(p.grpcContext(), []security.Authenticator{p.auth}, req, spki), p, nil
+}
+
+func (s *issueSUT) runWith(ctx context.Context, auths []security.Authenticator, req *pb.IstioCertificateRequest, spki []byte) (res issueResult) {
+	defer func() {
+		if rec := recover(); rec != nil {
+			res.crash = true
+		}
+	}()
+	s.cur.server.Authenticators = auths
 	res.spki = spki
 	res.before = time.Now()
 	resp, err := s.cur.server.CreateCertificate(ctx, req)
@@ -775,6 +908,32 @@ func (s *issueSUT) signerCert() *x509.Certificate {
 	return c
 }
 
+// signedBySigner: the leaf's signature verifies under the CA's signing certificate.
+func (s *issueSUT) signedBySigner(l *leafView) bool {
+	signer := s.signerCert()
+	alg, ok := sigAlgs[l.sigAlg]
+	return signer != nil && ok && signer.CheckSignature(alg, l.tbs, l.sig) == nil
+}
+
+var sigAlgs = map[string]x509.SignatureAlgorithm{
+	"1.2.840.113549.1.1.11": x509.SHA256WithRSA, "1.2.840.113549.1.1.12": x509.SHA384WithRSA, "1.2.840.113549.1.1.13": x509.SHA512WithRSA,
+	"1.2.840.10045.4.3.2": x509.ECDSAWithSHA256, "1.2.840.10045.4.3.3": x509.ECDSAWithSHA384, "1.2.840.10045.4.3.4": x509.ECDSAWithSHA512,
+	"1.3.101.112": x509.PureEd25519,
+}
+
+// chainHeadNotAfter: NotAfter of the first certificate of the cert-chain PEM (what minTTL reads).
+func (s *issueSUT) chainHeadNotAfter() (time.Time, bool) {
+	_, _, chainPem, _ := s.holder.cur.GetCAKeyCertBundle().GetAll()
+	if len(chainPem) == 0 {
+		return time.Time{}, false
+	}
+	c, err := util.ParsePemEncodedCertificate(chainPem)
+	if err != nil {
+		return time.Time{}, false
+	}
+	return c.NotAfter, true
+}
+
 func (s *issueSUT) format(res issueResult) string {
 	switch {
 	case res.crash:
@@ -789,6 +948,13 @@ func (s *issueSUT) format(res issueResult) string {
 	life := "clamp"
 	if signer == nil || !l.notAfter.Equal(signer.NotAfter) {
 		life = strconv.FormatInt(int64(l.notAfter.Sub(l.notBefore)/time.Second)-120, 10)
+		// default TTL capped by minTTL to the remaining life of the first chain certificate: the
+		// certificate ends where that one ends, plus the seconds elapsed since the CA was built
+		if head, ok := s.chainHeadNotAfter(); ok {
+			if d := l.notAfter.Sub(head); d >= 0 && d <= time.Minute {
+				life = "chaincap"
+			}
+		}
 	}
 	_, _, chainPem, rootPem := s.holder.cur.GetCAKeyCertBundle().GetAll()
 	chainCerts := util.PemCertBytestoString(chainPem)
@@ -808,8 +974,8 @@ func (s *issueSUT) format(res issueResult) string {
 		sans = fmt.Sprintf("%dext:%s", l.sanCount, sans)
 	}
 	le := signer != nil && !l.notAfter.After(signer.NotAfter)
-	return fmt.Sprintf("ok san=%s cn=%s ca=%s bc=%s key=%s ku=%d eku=%s xext=%s life=%s le=%s chain=%d mid=%s root=%s",
-		sans, wire.Enc(l.cn), wire.B(l.isCA), wire.B(l.bcPresent), wire.B(res.spki != nil && bytes.Equal(l.spki, res.spki)),
+	return fmt.Sprintf("ok san=%s subj=%s sig=%s ca=%s bc=%s key=%s ku=%d eku=%s xext=%s life=%s le=%s chain=%d mid=%s root=%s",
+		sans, wire.EncList(l.subject), wire.B(s.signedBySigner(l)), wire.B(l.isCA), wire.B(l.bcPresent), wire.B(res.spki != nil && bytes.Equal(l.spki, res.spki)),
 		l.keyUsage, wire.EncList(l.eku), wire.EncList(l.xext), life, wire.B(le), len(got), wire.B(mid), wire.B(root))
 }
 
@@ -834,7 +1000,11 @@ func (s *issueSUT) apply(f []string) (out string) {
 		}
 		def, _ := strconv.ParseInt(f[5], 10, 64)
 		max, _ := strconv.ParseInt(f[6], 10, 64)
-		c, err := s.fix.buildCA(f[1], life, def, max)
+		chainLife := int64(0)
+		if f[3] != "-" {
+			chainLife, _ = strconv.ParseInt(strings.Split(f[3], ",")[0], 10, 64)
+		}
+		c, err := s.fix.buildCA(f[1], life, chainLife, def, max)
 		if err != nil {
 			if strings.HasPrefix(err.Error(), "fixture:") {
 				return "fixture-failed " + wire.Enc(err.Error())
@@ -863,6 +1033,19 @@ func (s *issueSUT) apply(f []string) (out string) {
 			return "bad-op"
 		}
 		return s.format(s.run(r))
+	case "reqa":
+		if !s.caOK || s.cur == nil {
+			return "no-ca"
+		}
+		a, err := parseReqA(f)
+		if err != nil {
+			return "bad-op"
+		}
+		res, _, err := s.runA(a)
+		if err != nil {
+			return "fixture-failed " + wire.Enc(err.Error())
+		}
+		return s.format(res)
 	}
 	return "bad-op"
 }
